@@ -13,7 +13,7 @@
 (*       afile (the input comes from -a FILE instead of standard input -   *)
 (*       the same bytes, the same run), echo (no command at all: xargs     *)
 (*       itself writes each invocation's arguments, blank-separated, as    *)
-(*       one line on standard output)]                                     *)
+(*       one line on standard output), t (-t), P (-P N; 0 = absent)]       *)
 (***************************************************************************)
 EXTENDS Util, SequencesExt
 
@@ -55,6 +55,10 @@ EchoOK(in, stdout, exit) ==
 EchoDomain(in) ==
   /\ in.s = 0 /\ in.init = <<>> /\ in.script = <<>>
   /\ \A i \in DOMAIN in.stdin : in.stdin[i] < 128
+
+\* -t: every command line is written to standard error before it is run, one line each; nothing of the kind without -t.
+\* -P N: the invocations may overlap in time; what is run and the exit status are the same.
+TraceLinesOK(in, nlines, started) == nlines = IF Flag(in, "t") THEN started ELSE 0
 
 \* where the properties fix the outcome: input within C05's domain, outcomes within C19's, and no mixture of a
 \* batching error with failing children (which status wins is not said)
